@@ -178,7 +178,7 @@ theorem trunc_run_start {cap mc : Nat} {Wk Z W0 : Bytes} (K : TCtx cap mc Wk Z W
       (.writing (run .header [] mc).out (run .header [] mc).st.isFinal)) c0.env.tr) [] :=
     ⟨by show [] ++ c0.env.tr.input ++ Z = W0
         rw [hsame.input, hinp, List.nil_append]; exact K.cut,
-      hstop1, hsame.ben hb, hremle, Or.inr ⟨_, rfl, by show c0.env.tr.wlog ++ _ = _; rw [hsame.wlog]⟩⟩
+      hstop1, hsame.ben hb, hremle, Or.inr ⟨_, rfl, by show c0.env.tr.wlog ++ _ = _; rw [hsame.wlog], [], rfl⟩⟩
   obtain ⟨c', r, hh, hfr, ho⟩ := trunc_poll K hst (hsame.em.trans hem)
   have hh' := Halts.of_steps (Steps.one hstep') hh
   have hpoll := hh'.pollT (by
